@@ -363,3 +363,33 @@ Definition eval_now (s : state) (n : id) : option val :=
 Definition state_of (po : order) (st : store) (n : id) : option bool := stale po (fuel_of st) st n.
 Definition execs_of (st : store) (n : id) : nat :=
   match nth_error st n with Some (Struct sn) => sn_execs sn | _ => 0 end.
+
+(* ---------- processors that can fail ---------- *)
+(* Data.Process() returns (T, error).  process() stores both ("sn.value, sn.err = sn.Data.Process()"), then
+   version++, records the dependency versions and clears the flag exactly as after a successful run.
+   Value() returns sn.value whatever the error; sn.err is never read back: State() is Stale or Processed
+   (never Error), Version() counts failed executions too, Outdated() of a consumer looks only at Version()
+   and State().  So a node whose last run failed serves the value component of the failed result, and its
+   consumers compute from that.  [procfn] above is therefore the value component of Process(); the
+   definitions below make the error component explicit for the specification. *)
+Definition outcome := (val * bool)%type.                 (* (value, err != nil) *)
+Definition efn := list (list val) -> outcome.            (* Data.Process() as a function of the input values *)
+Definition served (p : efn) : procfn := fun ins => fst (p ins).
+
+Inductive onode := OParam (v : val) | OStruct (ins : list (list id)) (p : efn).
+Definition oerase (x : onode) : gnode :=
+  match x with OParam v => GParam v | OStruct ins p => GStruct ins (served p) end.
+
+(* from-scratch evaluation with error results: the outcome of running Process() of node n on the values its
+   inputs serve, recursively, ignoring every cache *)
+Fixpoint eval_outcome (fuel : nat) (g : list onode) (n : id) : option outcome :=
+  match fuel with
+  | O => None
+  | S f =>
+      match nth_error g n with
+      | None => None
+      | Some (OParam v) => Some (v, false)
+      | Some (OStruct ins p) =>
+          do xs <- map_opt (map_opt (fun d => option_map fst (eval_outcome f g d))) ins; Some (p xs)
+      end
+  end.
